@@ -30,6 +30,8 @@ type FuncCtx struct {
 	callCount    map[string]int
 	mutatedParam map[string]bool
 	loopOrd      map[*ssa.BasicBlock]int
+	loopHeadSt   map[*ssa.BasicBlock]*State
+	ghostVars    map[string]SV
 	depth        int
 	nRet         int
 }
@@ -87,7 +89,14 @@ func (v *Verifier) VerifyFunction(key string) {
 	}()
 	fc := &FuncCtx{v: v, fn: fn, spec: spec, key: key, short: shortFuncName(key), paramSV: map[string]SV{}, allocsByName: map[string][]*ssa.Alloc{},
 		cellClass: map[*ssa.Alloc]bool{}, safeCount: map[string]int{}, callCount: map[string]int{}, mutatedParam: map[string]bool{},
-		loopOrd: map[*ssa.BasicBlock]int{}}
+		loopOrd: map[*ssa.BasicBlock]int{}, loopHeadSt: map[*ssa.BasicBlock]*State{}, ghostVars: map[string]SV{}}
+	for _, g := range spec.Ghosts {
+		so, gt, err := v.resolveTypeOrSort(g.Type)
+		if err != nil {
+			panic(specError{err.Error()})
+		}
+		fc.ghostVars[g.Name] = SV{T: v.c.Const(fc.short+".ghost."+g.Name, so), GoT: gt}
+	}
 	fc.indexAllocs(fn)
 	v.funcCtxs[key] = fc
 	st := newState()
@@ -197,6 +206,9 @@ func (fc *FuncCtx) declaresElems(p string) bool {
 
 func (fc *FuncCtx) paramVars() map[string]SV {
 	m := map[string]SV{}
+	for k, g := range fc.ghostVars {
+		m[k] = g
+	}
 	for k, sv := range fc.paramSV {
 		m[k] = sv
 	}
@@ -220,6 +232,9 @@ func (fc *FuncCtx) indexAllocs(fn *ssa.Function) {
 
 func (fc *FuncCtx) env(st, old *State) *Env {
 	e := &Env{v: fc.v, vars: map[string]SV{}, lets: map[string]string{}, st: st, old: old}
+	for k, g := range fc.ghostVars {
+		e.vars[k] = g
+	}
 	if fc.spec != nil {
 		for _, l := range fc.spec.Lets {
 			e.lets[l.Name] = l.Type
@@ -748,6 +763,7 @@ func (fc *FuncCtx) loopEnv(fr *Frame, h *ssa.BasicBlock, st *State, adj int64) *
 		return t, ok
 	}
 	env.idxAdj = adj
+	env.headSt = fc.loopHeadSt[h]
 	return env
 }
 
@@ -818,6 +834,7 @@ func (fc *FuncCtx) loopHead(fr *Frame, ci *cfgInfo, h *ssa.BasicBlock, st *State
 			ns.assume(c, c.Cmp(">=", t, old))
 		}
 	}
+	fc.loopHeadSt[h] = ns.clone()
 	env = fc.loopEnv(fr, h, ns, 1)
 	for _, inv := range invs {
 		t, err := env.EvalBool(inv.E)
